@@ -83,6 +83,32 @@ func genC08(r *PRNG, tier string) *Scenario {
 	}
 	scn.Links = []Link{l}
 	scn.Net = NetCfg{DefCap: genCap(r)}
+	if mode != "error" && r.Chance(1, 4) {
+		// The local side can no longer write (it has sent its own close, or its transport
+		// failed on the first write) and keeps reading: handlers still see every frame, data is
+		// still delivered, and the peer's close is still reported as a CloseError.
+		lk := &scn.Links[0]
+		lk.Script = append([]SItem{{Kind: "waitstep", PauseMs: 60}}, lk.Script...)
+		var w TaskCfg
+		if r.Bool() {
+			scn.Class = "controls-after-local-close"
+			w = TaskCfg{Kind: "writer", W: []WOp{{Kind: "ctl", MT: 8, Code: 1000, DlMs: 0}}}
+		} else {
+			scn.Class = "controls-after-write-failure"
+			w = TaskCfg{Kind: "writer", W: []WOp{{Kind: "msg", MT: 2, Pay: Payload{Len: 10, Seed: 1}}}}
+			f := OpFault{Side: "w", AfterHead: true, K: r.Range(0, 1), Kind: r.Pick([]int{fErr, fTimeout})}
+			if realIsServer {
+				scn.Net.Conns = []ConnCfg{{FaultsB: []OpFault{f}}}
+			} else {
+				scn.Net.Conns = []ConnCfg{{FaultsA: []OpFault{f}}}
+			}
+		}
+		if realIsServer {
+			lk.STasks = append(lk.STasks, w)
+		} else {
+			lk.CTasks = append(lk.CTasks, w)
+		}
+	}
 	return scn
 }
 
@@ -94,7 +120,9 @@ func oracleC08(run *Run) {
 	l := &run.Scn.Links[0]
 	e := realOfLink(run, 0)
 	if e == nil {
-		run.fail("HARNESS", "no-connection", "hs", "handshake failed")
+		if run.Scn.Class != "controls-after-write-failure" { // there the injected fault may hit the tail of the handshake
+			run.fail("HARNESS", "no-connection", "hs", "handshake failed")
+		}
 		return
 	}
 	_, exps := ExpandScript(l.Script, e.IsServer, run.Scn.Seed)
@@ -215,6 +243,15 @@ func oracleC08(run *Run) {
 	checkSticky(run, "C08", who, rt)
 	run.Obligations++
 	// default handlers: the wire carries one pong per ping (same payload, same order) and one close echo
+	cannotWrite := run.Scn.Class == "controls-after-local-close" || run.Scn.Class == "controls-after-write-failure"
+	if cannotWrite {
+		// nothing may follow the local close / the failed write; replies are impossible, reading goes on
+		tv := decodeTap(wsTap(e), !e.IsServer, e.Negotiated)
+		if tv.V != nil {
+			run.fail("C08", "malformed-wire", tv.V.Rule, "%s wrote a malformed stream: %s", who, tv.V.Error())
+		}
+		return
+	}
 	if mode == "default" || mode == "observe" {
 		tv := decodeTap(wsTap(e), !e.IsServer, e.Negotiated)
 		if tv.V != nil {
@@ -264,7 +301,7 @@ func oracleC08(run *Run) {
 		if !closed {
 			run.fail("C08", "close-echo-missing", "missing", "%s: the close frame was not echoed", who)
 		}
-	} else if mode == "record" {
+	} else if mode == "record" && !cannotWrite {
 		if len(wsTap(e)) != 0 {
 			run.fail("C08", "unexpected-output", "record", "%s: bytes were written although the handlers send nothing", who)
 		}
